@@ -341,6 +341,29 @@ pub fn run(ctx: &Ctx) -> Report {
             }
         }
     }
+    // constructs the target cannot express, inside an alternative, between printers and after 0..5
+    // matchers: refused today (skipped here, C12 decides that) - but should such an expression ever
+    // compile, its printers are explored like any others
+    for u in [UTest::NoUser, UTest::NoGroup, UTest::User("u".into()), UTest::Group("g".into()), UTest::Regex("r".into()), UTest::LName("l".into()), UTest::FsType("lustre".into()), UTest::Samefile("f".into())] {
+        for m in 0..=5usize {
+            for (first, last) in [(Act::Print, Act::Print), (Act::Print, Act::Printf(vec![FEl::F(Fld::Basename), FEl::E(Esc::Newline)])), (Act::Print0, Act::FPrint("a".into())), (Act::FPrint("a".into()), Act::Print0)] {
+                let mut e = E::T(Tst::False);
+                for i in 0..m {
+                    e = E::or(e, E::T(if i % 2 == 0 { Tst::Name(format!("m{i}")) } else { Tst::IName(format!("m{i}")) }));
+                }
+                e = E::or(e, E::and(E::T(Tst::Name("a".into())), E::A(first.clone())));
+                e = E::or(e, E::T(Tst::U(u.clone())));
+                e = E::or(e, E::A(last.clone()));
+                for assignment in [vec![vec![0u8], vec![1]], vec![vec![0, 1], vec![2]]] {
+                    let c = Case { tree: e.clone(), threads: None, assignment };
+                    let (v, s, t) = judge(&c);
+                    states.fetch_add(s, std::sync::atomic::Ordering::Relaxed);
+                    transitions.fetch_add(t, std::sync::atomic::Ordering::Relaxed);
+                    st.record(&v, stable_hash(&c), true, || case_json(&c));
+                }
+            }
+        }
+    }
     total.merge(st);
     total.extra.insert("states".into(), json!(states.load(std::sync::atomic::Ordering::Relaxed)));
     total.extra.insert("transitions".into(), json!(transitions.load(std::sync::atomic::Ordering::Relaxed)));
